@@ -1402,3 +1402,107 @@ def r05_7(ctx):
         ctx.check(ok, R, key + '|arm %d within the clip in force' % n, b.loc(), 'rect = argument ∩ (previous clip rect | surface)',
                   'push_clip_rect pushes %s on one of its arms: a first clip rectangle is taken as given, so it can extend beyond the surface; layers are then sized from it and drawing through a (surface-sized) clip mask indexes it with off-surface coordinates' % what)
     ctx.floor(R, 'clip aggregates pushed by push_clip_rect', n, 2)
+
+
+def direct_deps(an, t):
+    """terms a value is computed from, following phi/rec leaves through their definitions and locals whose address was
+    taken through their direct assignments — but not through the flow-insensitive memory model (a call that receives
+    `&mut self` is not treated as a store to everything reachable from self)"""
+    seen = set()
+    seen_defs = set()
+    stack = [t]
+    while stack:
+        x = stack.pop()
+        if not isinstance(x, tuple) or x in seen:
+            continue
+        seen.add(x)
+        h = x[0] if x else None
+        if h in ('phi', 'rec'):
+            ids = x[2] if h == 'phi' else (x[1],)
+            for i in ids:
+                if i not in seen_defs:
+                    seen_defs.add(i)
+                    d = an.defs[i]
+                    if d.kind in ('assign', 'call', 'local') and not d.partial:
+                        stack.append(an.def_term(d) if d.kind != 'call' else an.call_term(d.bb))
+            continue
+        if h == 'mem':
+            for d in an.defs_of.get(x[1], []):
+                if d.kind in ('assign', 'local') and not d.partial and id(d) not in seen_defs:
+                    seen_defs.add(id(d))
+                    stack.append(an.def_term(d))
+            continue
+        for y in x:
+            if isinstance(y, tuple):
+                stack.append(y)
+    return seen
+
+
+def r03_9(ctx):
+    """drawing entry points route on geometry only: no branch in a DrawTarget method that takes a Source / DrawOptions
+    depends on the source, the global alpha or the blend mode.  ("nothing to do for a transparent source / alpha 0" is
+    true for SrcOver only: Src, Clear, SrcIn, DstIn, SrcOut, DstAtop change pixels under a transparent source)"""
+    R = 'R03.9'
+    n = 0
+    for q, b in sorted(ctx.F.bodies.items()):
+        if not q.startswith(DT) or '::{closure' in q or b.vis != 'pub':
+            continue
+        src_params = [i for i in range(1, b.argc + 1) if b.local_ty(i).replace(' ', '').endswith('draw_target::Source<\'_>') or 'draw_target::Source' in b.local_ty(i)]
+        opt_params = [i for i in range(1, b.argc + 1) if 'draw_target::DrawOptions' in b.local_ty(i)]
+        if not src_params and not opt_params:
+            continue
+        an = ctx.an(b)
+        n += 1
+        bad = []
+        for si, t in b.terminators('switch'):
+            if si not in an.cfg.reach:
+                continue
+            c = an.term_at(si, len(b.blocks[si]['st']), t['o'])
+            why = None
+            for x in direct_deps(an, c):
+                if len(x) == 2 and x[0] == 'param' and x[1] in src_params:
+                    why = 'the source'
+                if len(x) >= 4 and x[0] == 'field' and x[2] in ('alpha', 'blend_mode') and x[3] == 'raqote::draw_target::DrawOptions':
+                    why = 'options.' + x[2]
+            if why:
+                bad.append((si, why))
+        for si, why in bad:
+            ctx.fail(R, '%s|branch on %s' % (short(q), why), b.loc(b.blocks[si]['t'].get('sp')),
+                     '%s branches on %s before compositing: skipping or re-routing a draw because the source is transparent / alpha is 0 / the mode is X is only right for SrcOver-like modes — under Src, Clear, SrcIn, DstIn, SrcOut or DstAtop a transparent source still changes the destination, and the fast and general routes must not disagree' % (short(q), why))
+        if not bad:
+            ctx.ok(R, '%s|routes on geometry only' % short(q), b.loc(), 'no branch depends on the source, alpha or blend mode')
+    ctx.floor(R, 'drawing entry points taking a Source/DrawOptions', n, 6)
+
+
+def r03_10(ctx):
+    """a pixel write is conditional on coverage only: no guard of a store `dst = f(src, dst, ..)` in a row procedure or a
+    blitter depends on the source or destination pixel itself ("a transparent source pixel contributes nothing" holds
+    for SrcOver, not for Src/Clear/SrcIn/DstIn/SrcOut/DstAtop, which erase under a transparent source)"""
+    R = 'R03.10'
+    n = 0
+    PIX = ('sw_composite::blend::Blend::blend', 'sw_composite::over_in', 'sw_composite::over_in_in', 'sw_composite::over')
+    for q, b in sorted(ctx.F.bodies.items()):
+        an = None
+        sites = [(bi, d, ct) for bi, d, ct in calls_in(ctx, b) if d in PIX]
+        if not sites:
+            continue
+        an = ctx.an(b)
+        for bi, d, ct in sites:
+            pix = set(nosite(strip_all(a)) for a in ct[2][:2])
+            # the store(s) whose value contains this call
+            for addr, val, pt, kind in an.stores:
+                if kind != 'assign' or not any(x[0] == 'call' and x[3] == ct[3] for x in subterms(val) if len(x) == 4):
+                    continue
+                n += 1
+                bad = []
+                for op, a, b2, si in normalized_guards(ctx, b, pt[0]):
+                    for side in (a, b2):
+                        if side is None:
+                            continue
+                        deps = set(nosite(x) for x in direct_deps(an, side) if isinstance(x, tuple))
+                        if deps & pix:
+                            bad.append('%s %s' % (op, fmt(b, a)[:60]))
+                ctx.check(not bad, R, '%s|write conditional on coverage only' % short(q), b.loc(b.blocks[pt[0]]['st'][pt[1]]['sp']) if pt[1] < len(b.blocks[pt[0]]['st']) else b.loc(),
+                          'no guard of the pixel write reads the source or destination pixel',
+                          '%s writes the pixel only under a test of the source/destination pixel itself (%s): skipping e.g. transparent source pixels is wrong for every blend mode in which a transparent source changes the destination (Src, Clear, SrcIn, DstIn, SrcOut, DstAtop)' % (short(q), sorted(set(bad))))
+    ctx.floor(R, 'pixel writes through blend/over', n, 4)
